@@ -2,14 +2,16 @@
 from checks.storegen import World, NAMES, PLAIN
 from checks import C04
 ID = 'C02'
-THEOREMS = ['Nix.St.newFile_rootOK', 'Nix.St.reopenRW_id', 'Nix.St.reopen_observe_eq', 'Nix.St.reopen_then_continue', 'Nix.St.setAttr_rootOK']
+THEOREMS = ['Nix.St.newFile_rootOK', 'Nix.St.reopenRW_id', 'Nix.St.reopen_observe_eq', 'Nix.St.reopen_then_continue', 'Nix.St.setAttr_rootOK',
+            'Nix.St.newFile_sys', 'Nix.St.apply_sys', 'Nix.St.run_sys', 'Nix.St.Sys.rootOK', 'Nix.St.reopen_after_any_history', 'Nix.St.reopen_inside_any_history']
+LEAN_MODULES = ['NixModel.Props.C02', 'NixModel.Proofs.SysInv', 'NixModel.Proofs.SysOps', 'NixModel.Proofs.SysHistory']
 RULE = ('random create / modify / link / unlink / delete histories over all entity kinds (sources and sections nested up to depth 4); at random '
         'points and at the end: dump, close, reopen read-only or read-write (in the same process, and in a freshly started harness process for the '
         'second half), dump; flushes in between. The two dumps of the real library are compared with each other. non-trivial = the dump holds at '
         'least 6 entities; distinct = distinct op text.')
 TRUSTED = ['harness dump: ids, names, types, definitions, labels, units, positions/extents, dimension descriptors, all link structure, creation times, data digests',
            'what HDF5 does between H5Fclose and the bytes on disk']
-LEVEL_TEXT = ("Lean 4 theorems about the store model: the observable tree is a function of the store alone (no session state enters observe), closing writes nothing, a read-only open writes nothing and a read-write open of a file that has its two root groups and its creation time writes nothing — so the tree after close + reopen in either mode is the tree before, and a history with reopen steps inside equals the history without them. These theorems are thin by nature (they say that nix has no write-back cache, which the model has by construction); what decides the property on the code is the correspondence: on every generated history (all entity kinds, nesting <= 4, interior flush / reopen) the library's dump before close, after reopen read-only, from a freshly started reader process in another time zone, and after reopen read-write must be identical, and the model must predict each of them.")
+LEVEL_TEXT = ("Lean 4 theorems about the store model: the observable tree is a function of the store alone (no session state enters observe), closing writes nothing, a read-only open writes nothing and a read-write open of a file that has its two root groups and its creation time writes nothing — so the tree after close + reopen in either mode is the tree before, and a history with reopen steps inside equals the history without them. That premise is itself proved for every reachable state: the system invariant Sys (root = exactly metadata -> 1, data -> 2 plus the creation time; no other link reaches the root objects) holds for a new file and is preserved by every one of the 30 entry points of the store model (apply_sys) and hence by every history (run_sys), so reopen_after_any_history and reopen_inside_any_history carry no hypothesis on the state. These theorems are thin by nature (they say that nix has no write-back cache, which the model has by construction); what decides the property on the code is the correspondence: on every generated history (all entity kinds, nesting <= 4, interior flush / reopen) the library's dump before close, after reopen read-only, from a freshly started reader process in another time zone, and after reopen read-write must be identical, and the model must predict each of them.")
 LEVEL_NOTE = ("Trusted: Lean kernel; the abstract HDF5 store of lean/NixModel/Store.lean (objects, attributes, ordered hard links, removeAllLinks = every link to the object goes, creation-order index) and the hand-written entity layer lean/NixModel/Entities.lean, both validated on every run: the model replays every op of every generated history and must predict the library's answer (result / exception class, looked-up ids, counts, enumerations, cross-checks) and, at every dump, the whole observable tree (observe); ids and creation times are taken from the trace; fields the store model does not carry (array data, dimension descriptors, calibration, property values, row counts) are compared between dumps of the library only; harness dump = every public getter of every entity. What HDF5 does between H5Fclose and the bytes on disk is trusted.")
 ASSUMPTIONS = []
 
